@@ -118,7 +118,13 @@ void ThreadPool::clear() {
 }
 
 void ThreadPool::stop() {
-    m_isRunning = false;
+    {
+        // the flag is part of the workers' wait predicate, so it must change under the queue mutex:
+        // otherwise a worker that has just evaluated the predicate misses the notification below
+        std::scoped_lock locker(m_queueMutex);
+        m_isRunning = false;
+    }
+
     m_condition.notify_all();
 
     {
